@@ -56,6 +56,22 @@ async def amain(spec: dict) -> dict:
     kind = spec.get('statement_kind', 'str')
     if kind == 'path':
         p = Path(spec['tmpdir']) / 'script.py'
+        if spec.get('modules_env'):
+            # the environment of a script file: modules next to it, and modules of the same names in a directory that comes earlier on sys.path,
+            # the script's own directory being on sys.path already (further back) — `python script.py` puts the script's directory first
+            env = spec['modules_env']
+            proj = Path(spec['tmpdir']) / 'proj'
+            lib = Path(spec['tmpdir']) / 'lib'
+            proj.mkdir()
+            lib.mkdir()
+            for name, src in env.get('siblings', {}).items():
+                (proj / f'{name}.py').write_text(src)
+            for name, src in env.get('shadows', {}).items():
+                (lib / f'{name}.py').write_text(src)
+            sys.path.insert(0, str(lib))
+            if env.get('script_dir_on_path', True):
+                sys.path.append(str(proj))
+            p = proj / 'script.py'
         p.write_text(statement)
         statement = p
     elif kind == 'code':
